@@ -364,6 +364,16 @@ NEEDS = {
             'table: a parameter named like a constant of another width, '
             'extract of zero_extend',
     'C17h': 'FPShortSort keyed on eb + sb: (_ FloatingPoint 6 10)',
+    # seventh wave
+    'C05i': 'write_smtlib_to_file keeps the smaller file: an accepted step '
+            'whose rendering is larger than the previous output (implication '
+            'elimination, let substitution) is adopted but not written',
+    'C01i': 'Popen with text=True translates CR / CRLF of the command\'s '
+            'output to LF: exact comparison, a candidate whose output differs '
+            'from the golden one in line endings only',
+    'C10i': '--memout applied only when a time limit is passed: --memout '
+            'without --timeout, the golden run itself exceeds the memory '
+            'limit',
 }
 # checks of other properties that also see a change
 ALSO = {'C02c': ['C13'], 'C02d': ['C14'], 'C06d': ['C02'], 'C01c': ['C07'], 'C11c': ['C15'], 'C10d': ['C04'], 'C17c': ['C16'],
@@ -374,7 +384,8 @@ ALSO = {'C02c': ['C13'], 'C02d': ['C14'], 'C06d': ['C02'], 'C01c': ['C07'], 'C11
         'C03f': ['C05'], 'C11f': ['C13'], 'C01g': ['C06'],
         'C10g': ['C01'], 'C10h': ['C04'], 'C18h': ['C06'],
         'C04h': ['C10'], 'C06h': ['C18'], 'C15h': ['C12'], 'C12h': ['C13'],
-        'C11g': ['C12'], 'C17g': ['C16'], 'C16h': ['C15']}
+        'C11g': ['C12'], 'C17g': ['C16'], 'C16h': ['C15'],
+        'C01i': ['C09']}
 
 
 def sh(cmd, timeout=7200):
